@@ -177,6 +177,21 @@ def gen_tables(tier, rng):
         for sk in (0, 2):
             for sc in range(3):
                 out.append(f"passign {dk} {sk} {sc}")
+    # construction / assignment matrix over {int, const int, int&, const int&, int&&, move-only, copy-only}
+    for e1 in range(7):
+        out.append(f"ttraits 1 {e1}")
+        for e2 in range(7):
+            out.append(f"ptraits {e1} {e2}")
+            out.append(f"ttraits 2 {e1} {e2}")
+            for e3 in (0, 2, 5):
+                out.append(f"ttraits 3 {e1} {e2} {e3}")
+    out.append("ttraits 0")
+    for w in range(8):
+        out.append(f"retref {w}")
+    for _ in range(20):
+        out.append("refwrapops %d %d" % (rng.randint(-1000, 1000), rng.randint(-1000, 1000)))
+        out.append("frefops %d" % rng.randint(-1000, 1000))
+        out.append("notfnstatic %d" % rng.randint(-3, 3))
     # (catkind / catnest are only replayed as known-finding witnesses)
     return out
 
